@@ -16,7 +16,11 @@ Inductive pev :=
 | ELost                     (* connection close / idle timeout / transport error *)
 | ERun.                     (* the executor runs to quiescence: no transport meaning *)
 
-Inductive target := WConn | WStream (id : N) | WNothing.
+(* WSend id: a send call on stream id; it waits on the peer's flow-control credit for that stream and must complete
+   once the peer sent STOP_SENDING for it or the connection is lost.  WCredit: waits on credit to open streams
+   and to write h3's own unidirectional streams; must complete once the connection is lost.  [backpressure] says
+   whether the script withholds any credit at all: if not, send-side calls may never be pending. *)
+Inductive target := WConn | WStream (id : N) | WNothing | WSend (id : N) | WCredit.
 
 (* terminal events are sticky: the first FIN / RESET on a stream wins, later events on it are ignored *)
 Fixpoint rx_state (evs : list pev) (id : N) : term :=
@@ -54,12 +58,24 @@ Fixpoint mentioned_acc (acc : list N) (evs : list pev) : list N :=
   end.
 Definition mentioned (evs : list pev) : list N := mentioned_acc [] evs.
 
-Definition must_complete (evs : list pev) (t : target) : bool :=
+Fixpoint stopped (evs : list pev) (id : N) : bool :=
+  match evs with
+  | [] => false
+  | EStop i :: r => (i =? id) || stopped r id
+  | _ :: r => stopped r id
+  end.
+
+Definition must_complete_bp (backpressure : bool) (evs : list pev) (t : target) : bool :=
   match t with
   | WNothing => true
   | WConn => lost evs
   | WStream id => lost evs || match rx_state evs id with TOpen => false | _ => true end
+  | WSend id => negb backpressure || lost evs || stopped evs id
+  | WCredit => negb backpressure || lost evs
   end.
+
+(* scripts without back-pressure (unlimited credit): the form used by the theorems about receive calls *)
+Definition must_complete (evs : list pev) (t : target) : bool := must_complete_bp false evs t.
 
 (* the oracle for one observed run: no panic, and no pending call whose target must complete *)
 Inductive observed := ObsPanic | ObsPending (t : target) | ObsDone.
